@@ -121,15 +121,15 @@ def doHandle (ct acc body : String) : String :=
   match Bytes.ofHex ct, Bytes.ofHex acc with
   | some ct, some acc =>
     let b : Option Http.Body := match body with
-      | "valid" | "valid0" => some (.message true)
+      | "valid" | "valid0" | "big" => some (.message true)
       | "missinginv" => some (.message false)
-      | "empty" | "garbage" | "nonmsg" | "noroot" => some .undecodable
+      | "empty" | "garbage" | "nonmsg" | "noroot" | "validtrunc" | "validbadhash" | "validbadcid" => some .undecodable
       | _ => none
     match b with
     | none => bad "body kind"
     | some b =>
       let (h, runs) := Http.handle ct acc b
-      let calls := if runs && body == "valid" then 1 else 0
+      let calls := if runs && (body == "valid" || body == "big") then 1 else 0
       match h with
       | .status c => s!"status:{c}|calls={calls}\t-"
       | .error => s!"error|calls={calls}\t-"
@@ -368,6 +368,9 @@ def handle (line : String) : String :=
      | .error e => s!"bad-op:{e}") ++ "\t-"
   | ["cost", world, impl] => doCost world impl
   | ["cbor", v, _] => doCbor v
+  | ["rcptconc", _, g, per, _, _] => (match g.toNat?, per.toNat? with
+      | some g, some p => s!"issued={g * p}|bad=0\t-"
+      | _, _ => bad "rcptconc")
   | ["wire", _, items, _] => doWire items
   | ["wire", _, _, _, impl] => s!"{impl}\t-"
   | ["cborblock", h, _, _] => doCborBlock h
